@@ -29,6 +29,8 @@ type epWalk struct {
 	bad     []string
 	und     []string
 	steps   int
+	// error cells a deferred closure overwrote on this walk (-> position of the overwriting store)
+	clobbered map[*ssa.Alloc]string
 }
 
 type pstate struct {
@@ -227,6 +229,23 @@ func (w *epWalk) walk(b *ssa.BasicBlock, from int, pred *ssa.BasicBlock, s *psta
 			w.walk(b.Succs[0], 0, b, s.clone())
 			w.walk(b.Succs[1], 0, b, s)
 			return
+		case *ssa.RunDefers:
+			// a deferred closure that assigns a captured error variable without testing that it is still nil replaces
+			// whatever the function was about to return
+			for al, dc := range deferClobbers(w.fn) {
+				where := dc.store
+				// only a defer statement that has been executed on this path runs
+				if dc.deferAt.Block() != b && !dc.deferAt.Block().Dominates(b) {
+					continue
+				}
+				if cur, ok := s.cells[al]; ok && (cur == w.e || w.derivedFrom(s, cur, 0)) {
+					delete(s.cells, al)
+					if w.clobbered == nil {
+						w.clobbered = map[*ssa.Alloc]string{}
+					}
+					w.clobbered[al] = w.u.Pos(where)
+				}
+			}
 		case *ssa.Jump:
 			w.walk(b.Succs[0], 0, b, s)
 			return
@@ -273,6 +292,14 @@ func (w *epWalk) ret(r *ssa.Return, s *pstate) {
 	case freshError(R):
 		w.forms["H2-fresh"] = true
 	default:
+		if ld, ok := R.(*ssa.UnOp); ok && ld.Op == token.MUL {
+			if al, ok := ld.X.(*ssa.Alloc); ok {
+				if where, ok := w.clobbered[al]; ok {
+					w.bad = append(w.bad, fmt.Sprintf("the error is in the result variable when the function returns at %s, but a deferred function assigns that variable at %s without testing that it is still nil: when the deferred call succeeds the failure is turned into a nil error", pos, where))
+					return
+				}
+			}
+		}
 		// the error value of ANOTHER call that ran before the failing one (typically the outer variable of a shadowed
 		// `err :=`): whatever it holds, it is not the resource error of this path
 		if oc := errorOrigin(R); oc != nil && w.e != nil {
@@ -504,4 +531,74 @@ func runEP(u *Universe, r *Report, rule string, ops *Ops, keep func(*OpSite) boo
 	for _, fv := range fvs {
 		checkSticky(u, r, rule, fv)
 	}
+}
+
+type deferClobber struct {
+	deferAt *ssa.Defer
+	store   token.Pos
+}
+
+var deferClobberMemo = map[*ssa.Function]map[*ssa.Alloc]deferClobber{}
+
+// deferClobbers: the error-typed local variables (allocs captured by reference) of fn that a deferred closure of fn
+// stores to on a path that has not established `variable == nil`.
+func deferClobbers(fn *ssa.Function) map[*ssa.Alloc]deferClobber {
+	if m, ok := deferClobberMemo[fn]; ok {
+		return m
+	}
+	out := map[*ssa.Alloc]deferClobber{}
+	deferClobberMemo[fn] = out
+	for _, b := range fn.Blocks {
+		for _, ins := range b.Instrs {
+			d, ok := ins.(*ssa.Defer)
+			if !ok {
+				continue
+			}
+			mc, ok := d.Call.Value.(*ssa.MakeClosure)
+			if !ok {
+				continue
+			}
+			cl, ok := mc.Fn.(*ssa.Function)
+			if !ok {
+				continue
+			}
+			for i, bnd := range mc.Bindings {
+				al, ok := bnd.(*ssa.Alloc)
+				if !ok || i >= len(cl.FreeVars) {
+					continue
+				}
+				pt, ok := al.Type().(*types.Pointer)
+				if !ok || !isErr(pt.Elem()) {
+					continue
+				}
+				fv := cl.FreeVars[i]
+				for _, cb := range cl.Blocks {
+					for _, ci := range cb.Instrs {
+						st, ok := ci.(*ssa.Store)
+						if !ok || st.Addr != ssa.Value(fv) {
+							continue
+						}
+						if isNilConst(st.Val) {
+							continue
+						}
+						stillNil := guarded(cb, func(iff *ssa.If, truth bool) bool {
+							bo, ok := iff.Cond.(*ssa.BinOp)
+							if !ok {
+								return false
+							}
+							ld, ok := bo.X.(*ssa.UnOp)
+							if !ok || ld.Op != token.MUL || ld.X != ssa.Value(fv) || !isNilConst(bo.Y) {
+								return false
+							}
+							return (bo.Op == token.EQL && truth) || (bo.Op == token.NEQ && !truth)
+						}, 0)
+						if !stillNil {
+							out[al] = deferClobber{d, st.Pos()}
+						}
+					}
+				}
+			}
+		}
+	}
+	return out
 }
